@@ -419,7 +419,7 @@ def rpc_handlers():
     return out
 
 
-@structural("C15/handlers/one_transaction_per_request", props=["C15", "C02"],
+@structural("C15/handlers/one_transaction_per_request", props=["C15"],
             note="for every @allow_rpc method of DirectorHandler (discovered by decorator): every mutating call lies inside "
                  "an `async with self.db` span, no span contains an await, and the request opens at most one writing "
                  "transaction (its own spans that write plus awaited callees that open writing transactions)")
